@@ -244,6 +244,9 @@ class C03(Prop):
                                 ops.append("v2 " + G.spec(G.header(vc, afp, ln, G.rand_bytes(rng, present))))
         for _ in range(3000 if tier == "quick" else 100000):
             ops.append("tlv " + C.hexs(bytes(rng.choice([0, 0, 1, 2, 3, 255, rng.getrandbits(8)]) for _ in range(rng.randint(0, 20)))))
+        # value lengths at the u16 boundary with the value present: cursor arithmetic in a narrow type overflows only here
+        for sec in G.tlv_boundary_sections(rng):
+            ops.append("tlv " + G.spec(sec))
         return ops
 
     def project(self, op, line):
@@ -579,7 +582,7 @@ C12_EXPECT = {
 
 class C12(Prop):
     id = "C12"
-    required = ["C12.v2_version", "C12.v2_command", "C12.v2_family", "C12.v2_transport", "C12.v2_length", "C12.v2_signature", "C12.v2_terminal", "C12.v1_keyword", "C12.v1_protocol", "C12.v1_source_address", "C12.v1_destination_address", "C12.v1_source_port", "C12.v1_destination_port", "C12.v1_suffix", "C12.v1_limit_and_utf8"]
+    required = ["C12.v2_version", "C12.v2_command", "C12.v2_family", "C12.v2_transport", "C12.v2_length", "C12.v2_signature", "C12.v2_terminal", "C12.v1_keyword", "C12.v1_protocol", "C12.v1_source_address", "C12.v1_destination_address", "C12.v1_source_port", "C12.v1_destination_port", "C12.v1_suffix", "C12.v1_limit_and_utf8", "C12.utf8_valid_iff_wellFormed", "C12.v1_ill_formed_utf8"]
     rule = ("well-formed lines x element x invalid-replacement table (SP/CR-free replacements), CR followed by every non-LF class, lines over 107 bytes, invalid UTF-8; "
             "all invalid nibble values x valid control pairs, all too-small lengths, every altered signature byte; non-trivial = distinct (element, replacement, error) triples")
 
@@ -613,10 +616,11 @@ class C12(Prop):
                         ops.append("%s %s" % (e, C.hexs(m)))
                         self._meta.append(("v1", "limit", l, m))
                 m = l[:-2] + b" \xff\xfe\r\n"
-                ops.append("v1b " + C.hexs(m))
-                self._meta.append(("v1", "utf8", l, m))
-                ops.append("auto " + C.hexs(m))
-                self._meta.append(("v1", "utf8", l, m))
+                if len(m) <= 107:   # longer would be two faults at once (limit and encoding): not pinned
+                    ops.append("v1b " + C.hexs(m))
+                    self._meta.append(("v1", "utf8", l, m))
+                    ops.append("auto " + C.hexs(m))
+                    self._meta.append(("v1", "utf8", l, m))
         # v2
         for vc in G.VALID_VC:
             for afp in G.VALID_AFP:
@@ -775,10 +779,15 @@ class C16(Prop):
         return ops
 
     def project(self, op, line):
+        # C16 pins that the entry points agree with each other (the relation below), not which error a
+        # rejected input gets: error kinds enter the projection only as their agreement pattern
         if op.startswith("v1s"):
-            return tuple((res1(p)["k"], res1(p).get("hdr"), res1(p).get("addr"), res1(p).get("variant"), res1(p).get("owned")) for p in line.split(" | "))
+            rs = [res1(p) for p in line.split(" | ")]
+            kinds = [r.get("variant") for r in rs]
+            pattern = tuple(kinds.index(k) for k in kinds)
+            return tuple((r["k"], r.get("hdr"), r.get("addr"), r.get("owned")) for r in rs) + (pattern,)
         r = res1(line)
-        return (r["k"], r.get("hdr"), r.get("addr"), r.get("variant"), r.get("owned"), r.get("clob"))
+        return (r["k"], r.get("hdr"), r.get("addr"), r.get("owned"), r.get("clob"))
 
     def relation(self, ops, impl):
         out = []
